@@ -178,6 +178,22 @@ def batch(prop: str, tier: str, verif_seed: int, n_runs: int | None = None,
                     det["hashseed_checked"] += 1
                     if dg != first[i]:
                         det["hashseed_mismatch"] += 1
+        # cross-check that the SimSet shim misrepresents nothing: a slice of the
+        # batch re-executed in fresh interpreters under real PYTHONHASHSEED
+        # values *without* the shim must not violate the property either
+        if getattr(profile, "real_hash_check", False):
+            det["real_hash_runs"] = 0
+            det["real_hash_violations"] = 0
+            for hs in profile.hash_seeds[tier]:
+                d = _digests_fresh(prop, verif_seed, min(kk * 4, n_runs), hs,
+                                   noshim=True)
+                det["real_hash_runs"] += len(d)
+                det["real_hash_violations"] += sum(1 for x in d.values() if x.endswith("!"))
+            if det["real_hash_violations"]:
+                harness_errors.append({"i": -1, "harness_error":
+                                       "violation under a real PYTHONHASHSEED without the "
+                                       f"SimSet shim only: {det} (run ./check --digests with "
+                                       "LABSIM_NOSHIM=1 to find it)"})
         if det["mismatch"] or det["hashseed_mismatch"]:
             harness_errors.append({"i": -1, "harness_error":
                                    f"determinism self-check failed: {det}"})
@@ -310,10 +326,13 @@ def _clean(v):
     return json.loads(json.dumps(v, default=str))
 
 
-def _digests_fresh(prop, verif_seed, n, hashseed, simset=None) -> dict:
+def _digests_fresh(prop, verif_seed, n, hashseed, simset=None,
+                   noshim=False) -> dict:
     """Digests of the first n runs computed in a fresh interpreter."""
     envv = dict(os.environ)
     envv["PYTHONHASHSEED"] = str(hashseed)
+    if noshim:
+        envv["LABSIM_NOSHIM"] = "1"
     envv["PYTHONPATH"] = VERIF + os.pathsep + envv.get("PYTHONPATH", "")
     cmd = [PY, "-m", "labsim", "--digests", prop, str(verif_seed), str(n)]
     p = subprocess.run(cmd, capture_output=True, text=True, env=envv,
@@ -321,7 +340,7 @@ def _digests_fresh(prop, verif_seed, n, hashseed, simset=None) -> dict:
     out = {}
     for line in p.stdout.splitlines():
         if line.startswith("DIGEST "):
-            _, i, d = line.split()
+            _, i, d = line.split()[:3]
             out[int(i)] = d
     if p.returncode != 0 or not out:
         raise RuntimeError("fresh-interpreter digest run failed: "
@@ -370,7 +389,8 @@ def digests(prop, verif_seed, n) -> int:
     for i in range(n):
         res = fork_call(run_one, (prop, run_seed(verif_seed, prop, i)),
                         timeout=300)
-        print("DIGEST", i, res["digest"], flush=True)
+        print("DIGEST", i, res["digest"] + ("!" if res["violations"] else ""),
+              flush=True)
     return 0
 
 
